@@ -1752,7 +1752,7 @@ func (t *tScreen) parseRune(buf *bytes.Buffer, evs *[]Event) (bool, bool) {
 	return true, false
 }
 
-func (t *tScreen) scanInput(buf *bytes.Buffer, expire bool) {
+func (t *tScreen) scanInput(buf *bytes.Buffer, expire bool, stopQ chan struct{}) {
 	evs := t.collectEventsFromInput(buf, expire)
 
 	for _, ev := range evs {
@@ -1760,6 +1760,9 @@ func (t *tScreen) scanInput(buf *bytes.Buffer, expire bool) {
 		select {
 		case t.eventQ <- ev:
 		case <-t.quit:
+			return
+		case <-stopQ:
+			// suspending while the application is not polling
 			return
 		}
 	}
@@ -1895,7 +1898,7 @@ func (t *tScreen) mainLoop(stopQ chan struct{}) {
 			// This lets us detect conflicts such as a lone ESC.
 			if buf.Len() > 0 {
 				if time.Now().After(t.keyexpire) {
-					t.scanInput(buf, true)
+					t.scanInput(buf, true, stopQ)
 				}
 			}
 			if buf.Len() > 0 {
@@ -1911,7 +1914,7 @@ func (t *tScreen) mainLoop(stopQ chan struct{}) {
 			verifSched("main.chunk")
 			buf.Write(chunk)
 			t.keyexpire = time.Now().Add(time.Millisecond * 50)
-			t.scanInput(buf, false)
+			t.scanInput(buf, false, stopQ)
 			if !t.keytimer.Stop() {
 				select {
 				case <-t.keytimer.C:
@@ -1948,13 +1951,19 @@ func (t *tScreen) inputLoop(stopQ chan struct{}) {
 				select {
 				case t.eventQ <- NewEventError(e):
 				case <-t.quit:
+				case <-stopQ:
 				}
 			}
 			return
 		}
 		if n > 0 {
 			verifSched("input.send")
-			t.keychan <- chunk[:n]
+			select {
+			case t.keychan <- chunk[:n]:
+			case <-stopQ:
+				// shutting down, and nobody is going to take it
+				return
+			}
 		}
 	}
 }
